@@ -86,6 +86,35 @@ TEXTS = {
         "note": "Known findings F3, F7, F11, F16. Trusted: Lean kernel, translator, harness, model.",
         "technique": "Lean 4 proof over executable model + differential correspondence + direct oracle",
     },
+    "C16": {
+        "text": "Lean theorems on the CLI mode logic (write protocol, files = stdin->stdout under RoundTrip, check exit, read-only modes, "
+                "undecodable files, mode defaults) + correspondence of the model with the built binary on temporary trees for every mode, "
+                "path form, encoding and BOM.",
+        "design_ref": "DESIGN.md section 5 (C16)",
+        "note": "File system, walkdir/glob and legacy codec tables are external parameters. Known finding F8.",
+        "technique": "Lean 4 proof over executable model + binary-level differential correspondence",
+    },
+    "C17": {
+        "text": "Lean theorems: BOM logic, UTF-16 encoder round trip for every text, written-bytes specification, malformed input never "
+                "rewritten; binary-level correspondence across 8 encodings x BOM kinds x malformed inputs.",
+        "design_ref": "DESIGN.md section 5 (C17)",
+        "note": "encoding_rs tables are trusted/external; expected legacy bytes come from Python codecs on a common subset.",
+        "technique": "Lean 4 proof over executable model + binary-level differential correspondence",
+    },
+    "C18": {
+        "text": "Lean theorem over all schedules of a buffer-carrying worker model (results = per-file results, exit status iff a failure) "
+                "+ binary runs with several thread counts against per-file runs + replay of the hooked schedule history through the model.",
+        "design_ref": "DESIGN.md section 5 (C18)",
+        "note": "Partial w.r.t. true concurrency: data races cannot be exhibited by the model.",
+        "technique": "Lean 4 proof over schedule-abstract model + binary-level correspondence with schedule hook replay",
+    },
+    "C19": {
+        "text": "Lean theorems on configuration lookup and layering + binary-level correspondence from nested working directories with "
+                "random option splits between file and command line.",
+        "design_ref": "DESIGN.md section 5 (C19)",
+        "note": "config/serde/toml/clap external; value domains pinned by the correspondence. Known finding F20 (coercions).",
+        "technique": "Lean 4 proof over executable model + binary-level differential correspondence",
+    },
     "C13": {
         "text": "Machine-checked Lean 4 theorems on an exact model of the lexer: losslessness, single last end-of-file token, blank-only "
                 "leading whitespace, non-blank token starts, AVX2 identifier routine = scalar routine for every input, keyword lookup = "
